@@ -217,3 +217,23 @@ contract('gnpy.core.info.SpectralInformation.carriers', props=['C01', 'C07'], pa
                   ('own_data', f'forall(lambda i: result[i].frequency == self._frequency[i] and result[i].baud_rate == self._baud_rate[i] '
                                f'and result[i].slot_width == self._slot_width[i] and result[i].channel_number == self._channel_number[i], {_N})')],
          use_at_calls=False, modifies=[])
+
+# ---------------------------------------------------------------- round 8: how many channels a band holds (C07)
+contract('gnpy.core.utils.automatic_nch', props=['C07'],
+         params={'f_min': real(), 'f_max': real(), 'spacing': real()},
+         requires=[('spacing', 'spacing > 0'), ('band', 'f_max >= f_min')],
+         # the largest number of whole channel spacings the band holds
+         ensures=[('all_fit', 'result * spacing <= f_max - f_min'), ('no_more_would', '(result + 1) * spacing > f_max - f_min'),
+                  ('nonneg', 'result >= 0')],
+         returns=integer(), use_at_calls=False, modifies=[])
+contract('gnpy.core.utils.automatic_fmax', props=['C07'],
+         params={'f_min': real(), 'spacing': real(), 'nch': integer()},
+         ensures=[('upper_edge', 'result == f_min + spacing * nch')], returns=real(), use_at_calls=False, modifies=[])
+H_NCH = '''
+def nch_roundtrip(f_min, spacing, nch):
+    return automatic_nch(f_min, automatic_fmax(f_min, spacing, nch), spacing)
+'''
+contract('harness:nch_roundtrip', harness=H_NCH, module='gnpy.core.utils', props=['C07'],
+         params={'f_min': real(), 'spacing': real(), 'nch': integer()},
+         requires=[('spacing', 'spacing > 0'), ('nch', 'nch >= 0')],
+         ensures=[('inverse_in_exact_arithmetic', 'result == nch')], modifies=[])
